@@ -926,3 +926,69 @@ mod test {
         );
     }
 }
+
+/// Read-only export of the internal memo tables of a [`Bdd`] (verification hook, only built with `--cfg adf_obdd_verif`).
+#[cfg(adf_obdd_verif)]
+#[derive(Debug, Clone, Default)]
+pub struct VerifDump {
+    /// unique table: node -> handle
+    pub uniq: Vec<(BddNode, Term)>,
+    /// if-then-else memo table
+    pub ite: Vec<((Term, Term, Term), Term)>,
+    /// restrict memo table
+    pub restrict: Vec<((Term, Var, bool), Term)>,
+    /// count cache: handle -> ((cmodels, models), (cpaths, paths), depth)
+    pub count: Vec<(Term, ((usize, usize), (usize, usize), usize))>,
+    /// variable dependency lists (empty without the `variablelist` feature)
+    pub deps: Vec<Vec<Var>>,
+}
+
+#[cfg(adf_obdd_verif)]
+impl Bdd {
+    /// Read-only export of the internal memo tables (verification hook).
+    pub fn verif_dump(&self) -> VerifDump {
+        let mut uniq: Vec<(BddNode, Term)> = self.cache.iter().map(|(k, v)| (*k, *v)).collect();
+        uniq.sort();
+        let mut ite: Vec<((Term, Term, Term), Term)> =
+            self.ite_cache.iter().map(|(k, v)| (*k, *v)).collect();
+        ite.sort();
+        let mut restrict: Vec<((Term, Var, bool), Term)> =
+            self.restrict_cache.iter().map(|(k, v)| (*k, *v)).collect();
+        restrict.sort();
+        let mut count: Vec<(Term, ((usize, usize), (usize, usize), usize))> = self
+            .count_cache
+            .borrow()
+            .iter()
+            .map(|(k, v)| {
+                (
+                    *k,
+                    (
+                        (v.0.cmodels, v.0.models),
+                        (v.1.cmodels, v.1.models),
+                        v.2,
+                    ),
+                )
+            })
+            .collect();
+        count.sort();
+        #[cfg(feature = "variablelist")]
+        let deps: Vec<Vec<Var>> = self
+            .var_deps
+            .iter()
+            .map(|s| {
+                let mut v: Vec<Var> = s.iter().copied().collect();
+                v.sort();
+                v
+            })
+            .collect();
+        #[cfg(not(feature = "variablelist"))]
+        let deps: Vec<Vec<Var>> = Vec::new();
+        VerifDump {
+            uniq,
+            ite,
+            restrict,
+            count,
+            deps,
+        }
+    }
+}
